@@ -17,15 +17,15 @@ CLAIMS = {
    note=TRUST + 'Points-to is unsound only for pointers laundered through integers/unions/varargs; libc mem*/malloc/libm thread-safe; one thread per object.',
    technique='whole-program may-point-to + store classification over the typed AST (custom libTooling checker)'),
  'C05': dict(category='other',
-   text='Partial (memory-safety skeleton of the buffer limit): explicit TOC/frame-count byte stores are at indices proved inside the buffer (pointer offset as ghost integer, trace partitioning on the packet code); every length opus_encode_native hands to a writer of the caller buffer is proved <= out_data_bytes by relational difference tracking through the IMIN/IMAX clamps; the range coder gets exactly max_data_bytes-1 bytes at data+1 and callers pass 1..1276; the multistream encoder clamps the per-stream budget to its scratch packet, passes exactly the remaining space and advances data/tot_size together; the 1275-byte scratch copies match the caps. Exact CBR size, BITRATE_MAX fill, CVBR average and redundancy placement inside the coder buffer are NOT decided.',
+   text='Partial (memory-safety skeleton of the buffer limit): explicit TOC/frame-count byte stores are at indices proved inside the buffer (pointer offset as ghost integer, trace partitioning on the packet code); every length opus_encode_native hands to a writer of the caller buffer is proved <= out_data_bytes by relational difference tracking through the IMIN/IMAX clamps; the range coder gets exactly max_data_bytes-1 bytes at data+1 and callers pass 1..1276; the multistream encoder clamps the per-stream budget to its scratch packet, passes exactly the remaining space and advances data/tot_size together; the 1275-byte scratch copies match the caps. CBR padding is keyed on use_vbr (no stale mirror); the OPUS_BITRATE_MAX rate round-trips to the buffer size over all 45x1276 partitions; the multistream per-stream split is conservative (sum of rate[i] - requested total vanishes as a polynomial identity, clamps and rounding aside). Exact CBR size, BITRATE_MAX fill, CVBR average and redundancy placement inside the coder buffer are NOT decided.',
    note=TRUST + 'Assumes no signed-integer overflow (UB) when clipping stored values to the variable type. One unchecked repacketizer result in the multistream encoder is a frozen stated-belief exception (no failing input known).',
-   technique='interval-set abstract interpretation with tracked differences (out_data_bytes - len), min/max relation back-propagation and trace partitioning (product CFG)'),
+   technique='interval-set abstract interpretation with tracked differences (out_data_bytes - len), min/max relation back-propagation and trace partitioning (product CFG) + finite-domain evaluation of extracted expressions + polynomial normal forms (rate-split conservation)'),
  'C06': dict(category='other',
-   text='Partial (memory-safety and agreement clauses of the parser): every packet-byte read of opus_packet_parse_impl / parse_size / opus_packet_get_nb_frames happens with the length variable proved >= the bytes needed and never overstating what is left (linear ghost len+consumed-initial <= 0 with symbolic cancellation); the frame count is proved in [1,48] and all subscripts of size[]/frames[] inside the declared 48 entries; explicit sizes are validated before the pointer advances and implicit sizes checked <= 1275 before narrowing; the frame-count helper agrees with the parser per TOC code and both enforce the same 120 ms; out-parameters are stored after the last failure return; internal callers pass 48-entry arrays. Equality of the accepted set with RFC 6716 R1-R7 and of the reported offsets is NOT decided.',
+   text='Partial (memory-safety and agreement clauses of the parser): every packet-byte read of opus_packet_parse_impl / parse_size / opus_packet_get_nb_frames happens with the length variable proved >= the bytes needed and never overstating what is left (linear ghost len+consumed-initial <= 0 with symbolic cancellation); the frame count is proved in [1,48] and all subscripts of size[]/frames[] inside the declared 48 entries; explicit sizes are validated before the pointer advances and implicit sizes checked <= 1275 before narrowing; the frame-count helper agrees with the parser per TOC code and both enforce the same 120 ms; out-parameters are stored after the last failure return; internal callers pass 48-entry arrays. The self-delimited last frame is bounded by what is left after its own length bytes; opus_packet_has_lbrr derives its SILK frame count from the per-frame duration. Equality of the accepted set with RFC 6716 R1-R7 and of the reported offsets is NOT decided.',
    note=TRUST + 'Assumes no signed overflow when clipping stored values.',
    technique='interval-set abstract interpretation with a linear ghost (consumed bytes) and product refinement (framesize*count <= 5760) + dominance facts + decision-table agreement of sibling functions'),
  'C07': dict(category='other',
-   text='Partial: a rejected cat leaves observable contents unchanged (commit-after-validate, slot index < 48 from the 120 ms check); every output store of out_range_impl is reached only after a tot_size-vs-maxlen check returning OPUS_BUFFER_TOO_SMALL since the last growth of tot_size (typestate product over the CFG with interval pruning); pad/unpad guards and copy-before-cat; no repacketizer/parser/extension error is dropped. Byte-for-byte frame preservation, canonical unpad and the 1277*n bound are NOT decided.',
+   text='Partial: a rejected cat leaves observable contents unchanged (commit-after-validate, slot index < 48 from the 120 ms check); every output store of out_range_impl is reached only after a tot_size-vs-maxlen check returning OPUS_BUFFER_TOO_SMALL since the last growth of tot_size (typestate product over the CFG with interval pruning); pad/unpad guards and copy-before-cat; no repacketizer/parser/extension error is dropped. Padding arithmetic is exact over a full period of both divisors; indexing is relative to begin; the sizing and emission passes of the self-delimited output use the same frame; opus_packet_unpad returns a length only through parse + re-emit. Byte-for-byte frame preservation, canonical unpad and the 1277*n bound are NOT decided.',
    note=TRUST + 'One growth of tot_size is a frozen, reasoned exception (anticipated by the dominating padding check).',
    technique='typestate product of the CFG with a budget-checked automaton, analysed by interval abstract interpretation; never-after / must-pass-through rules; unchecked-error rule'),
  'C08': dict(category='other',
@@ -53,7 +53,7 @@ CLAIMS = {
    note=TRUST,
    technique='control-dependence region effects (non-interference), stride-form subscript rule, may-stale dataflow inside the channel loop, dominance guards'),
  'C03': dict(category='translation_validation',
-   text='Partial (table conformance only): every normative PDF / codebook / constant table that RFC 6716 prints (read from the xml2rfc source shipped in doc/, an oracle written independently of the C tables) equals the evaluated C initialiser after the per-entry transform (pdf->icdf, transposition, sub-table offsets, bit-field layout) - 163 translated tables; the ec_sel bit layout used to read the NLSF selection tables; the binding of each decoder function\'s iCDF call sites to those tables; the fs/frame-size selectors of silk_decoder_set_fs against the RFC rows; decoder reachability and coverage of the mapped tables. This is exactly the class "a changed table entry that keeps encoder and decoder mutually consistent". PCM within tolerance of the reference decoder, final range, filters, MDCT, resampler and transitions are NOT decided (numeric).',
+   text='Partial (table conformance only): every normative PDF / codebook / constant table that RFC 6716 prints (read from the xml2rfc source shipped in doc/, an oracle written independently of the C tables) equals the evaluated C initialiser after the per-entry transform (pdf->icdf, transposition, sub-table offsets, bit-field layout) - 163 translated tables; the ec_sel bit layout used to read the NLSF selection tables; the binding of each decoder function\'s iCDF call sites to those tables; the fs/frame-size selectors of silk_decoder_set_fs against the RFC rows; decoder reachability and coverage of the mapped tables. Structural conditions of the filters/state: symmetric-FIR tap pairing of the SILK down-sampler, interleave stride of the frame assembly, and every loop updating the CELT energy memories covers both channel slots. This is exactly the class "a changed table entry that keeps encoder and decoder mutually consistent". PCM within tolerance of the reference decoder, final range, filters, MDCT, resampler and transitions are NOT decided (numeric).',
    note=TRUST + 'doc/draft-ietf-codec-opus.xml as the oracle (its two known misprints - the 12-entry trim PDF and the row label "g" - are handled by reading the celt_symbols row and by positional rows). spec/c03_sites.json binds decoder functions to table sets.',
    technique='translation validation of constant tables against the RFC text + points-to resolution of table arguments + decision-table extraction (path feasibility under enumerated valuations)'),
  'C18': dict(category='other',
@@ -69,7 +69,7 @@ CLAIMS = {
    note=TRUST,
    technique='derived function-pointer/buffer pairing (fixpoint over indirect and forwarding calls) + type agreement of casts; constant-argument rule; expression normalisation for sibling agreement; constant folding of conversion scales'),
  'C09': dict(category='other',
-   text='Partial (duration/capacity skeleton and side-information agreement): the 2.5 ms-multiple test lies on every path to concealment and FEC; the PLC loop and the chunked (>20 ms) concealment hand the frame decoder exactly the remaining capacity at the matching offset (one cursor), add what was produced and report the requested count; the FEC branch is PLC(frame_size-packet_frame_size) plus one frame decoded at exactly that offset, entered only when frame_size >= packet_frame_size; every SILK concealment attenuation factor is in (0,1) and clamp-indexed (interval analysis with the lossCnt >= 0 invariant derived from its writers); <=1-byte payloads go to concealment bounded by the TOC duration; encoder and decoder decide the presence of the mid-only symbol from the same flag (decision tables over side VAD/LBRR flags) in normal, FEC and LBRR-skip contexts; CELT loss counter saturation/reset, bounded rise of the noise floor after an outage, safe energy prediction after loss. Output levels, decay, FEC accuracy and re-convergence are NOT decided (numeric, signal dependent).',
+   text='Partial (duration/capacity skeleton and side-information agreement): the 2.5 ms-multiple test lies on every path to concealment and FEC; the PLC loop and the chunked (>20 ms) concealment hand the frame decoder exactly the remaining capacity at the matching offset (one cursor), add what was produced and report the requested count; the FEC branch is PLC(frame_size-packet_frame_size) plus one frame decoded at exactly that offset, entered only when frame_size >= packet_frame_size; every SILK concealment attenuation factor is in (0,1) and clamp-indexed (interval analysis with the lossCnt >= 0 invariant derived from its writers); <=1-byte payloads go to concealment bounded by the TOC duration; encoder and decoder decide the presence of the mid-only symbol from the same flag (decision tables over side VAD/LBRR flags) in normal, FEC and LBRR-skip contexts; CELT loss counter saturation/reset, bounded rise of the noise floor after an outage, safe energy prediction after loss. The LBRR gain index is dequantised in the mode it was emitted in, and the three sites that choose conditional vs independent coding of LBRR frames agree for all (channel, frame, flags); the noise-PLC decay covers every synthesised channel. Output levels, decay, FEC accuracy and re-convergence are NOT decided (numeric, signal dependent).',
    note=TRUST,
    technique='cursor/budget pattern rules over the CFG (must-pass-through, dominance facts) + decision-table extraction with a resolver + interval abstract interpretation for table indices + table predicates'),
  'C12': dict(category='other',
@@ -77,11 +77,11 @@ CLAIMS = {
    note=TRUST + 'spec/c12_reset_exceptions.json lists 6 reasoned exceptions, each with a machine-checked guard.',
    technique='whole-program may-point-to (shared with C14) + dominance / must-define dataflow partitioned by coding mode + linear normal forms of size expressions + sibling agreement init/reset + offset reasoning on record layouts'),
  'C02': dict(category='other',
-   text='Partial (lock-step skeleton): in every `if (encode) .. else ..` of the shared CELT band/rate code both arms issue the same entropy-coder operations with the same model parameters; 18 encoder/decoder function pairs (SILK indices, pulses, shell, signs, stereo; CELT coarse/fine/final energy, tf, Laplace, PVQ pulses; CELT and SILK frame headers; hybrid redundancy signalling) issue the same ordered list of distinct coder events (kind, resolved table set, constants), and every SILK index field is coded with the same model on both sides; both sides publish coder.rng ^ redundant_rng and 0 on every TOC-only / tiny-payload path (must-reach dataflow on the field); no encoder-side error is dropped (prefill-into-dummy calls are the reasoned exception); every TOC is generated from the frame size being coded. That every packet decodes to the encoder\'s final range, packet validity for all inputs, absence of internal errors, and conformance of code shared by both sides are NOT decided.',
+   text='Partial (lock-step skeleton): in every `if (encode) .. else ..` of the shared CELT band/rate code both arms issue the same entropy-coder operations with the same model parameters; 18 encoder/decoder function pairs (SILK indices, pulses, shell, signs, stereo; CELT coarse/fine/final energy, tf, Laplace, PVQ pulses; CELT and SILK frame headers; hybrid redundancy signalling) issue the same ordered list of distinct coder events (kind, resolved table set, constants), and every SILK index field is coded with the same model on both sides; both sides publish coder.rng ^ redundant_rng and 0 on every TOC-only / tiny-payload path (must-reach dataflow on the field); no encoder-side error is dropped (prefill-into-dummy calls are the reasoned exception); every TOC is generated from the frame size being coded. When a redundancy frame is present its final range is taken on every feasible path. The low-budget (TOC-only) packet announces exactly the submitted duration for all 9 frame sizes x 4 modes x {1 byte, more} (interval analysis of that region against the RFC TOC durations). That every packet decodes to the encoder\'s final range, packet validity for all inputs, absence of internal errors, and conformance of code shared by both sides are NOT decided.',
    note=TRUST + 'A change made consistently to code shared by encoder and decoder (e.g. the allocation arithmetic in celt/rate.c) is invisible to these rules; tables are covered by C03.',
-   technique='sibling agreement of entropy-coder event sequences (points-to resolved tables) + control-dependence regions + must-reach dataflow on a state field + unchecked-error rule'),
+   technique='sibling agreement of entropy-coder event sequences (points-to resolved tables) + control-dependence regions + must-reach dataflow on a state field + path feasibility + region-restricted interval abstract interpretation against the RFC TOC table + unchecked-error rule'),
  'C01': dict(category='other',
-   text='Partial (necessary conditions of memory safety and totality, each decided over all paths): the argument/capacity guards are on every path to any write into the caller\'s PCM and to any stack allocation sized by frame_size (edge-dominance), and the frame loop, the PLC loop, the chunked concealment and the FEC branch hand the frame decoder exactly the remaining capacity at the matching offset; packet bytes are read only under a length bound (parser: linear-ghost interval analysis shared with C06; reads through parsed frame pointers guarded by size[]); range-decoder byte reads are guarded and zero-filled; every iCDF table reaching a decoder call terminates; 19 subscripts of constant tables by decoded symbols are proved in range by interval analysis with the decoder\'s results bounded by their own tables, field summaries over the decoder functions and parameter binding from all call sites; no decode error is dropped; last_packet_duration equals the returned count; CELT band energy is clamped before exponentiation. One genuine defect found by the frame-pointer rule (opus_packet_has_lbrr over-read) was repaired. In-bounds access and termination of the WHOLE decoder (CELT band loops, PLC buffers, resampler), finiteness of every sample and absence of OPUS_INTERNAL_ERROR are NOT decided.',
+   text='Partial (necessary conditions of memory safety and totality, each decided over all paths): the argument/capacity guards are on every path to any write into the caller\'s PCM and to any stack allocation sized by frame_size (edge-dominance), and the frame loop, the PLC loop, the chunked concealment and the FEC branch hand the frame decoder exactly the remaining capacity at the matching offset; packet bytes are read only under a length bound (parser: linear-ghost interval analysis shared with C06; reads through parsed frame pointers guarded by size[]); range-decoder byte reads are guarded and zero-filled; every iCDF table reaching a decoder call terminates; 19 subscripts of constant tables by decoded symbols are proved in range by interval analysis with the decoder\'s results bounded by their own tables, field summaries over the decoder functions and parameter binding from all call sites; no decode error is dropped; last_packet_duration equals the returned count; CELT band energy is clamped before exponentiation. One genuine defect found by the frame-pointer rule (opus_packet_has_lbrr over-read) was repaired. The SILK bounce buffer is selected exactly when the capacity is below the buffer\'s own size, and the multistream scratch image is dimensioned from the very capacity handed to the stream decoders. In-bounds access and termination of the WHOLE decoder (CELT band loops, PLC buffers, resampler), finiteness of every sample and absence of OPUS_INTERNAL_ERROR are NOT decided.',
    note=TRUST + 'spec/c01_index_sites.json freezes the subscript sites proved on the reference tree; sites the interval domain cannot prove are listed in the evidence as not decided.',
    technique='edge-dominance guard rules + cursor/budget pattern rules + interprocedural interval abstract interpretation (call summaries from table data, field summaries, parameter binding) + rules shared with C06/C08/C09/C17'),
 }
